@@ -15,11 +15,13 @@
 //!   C10 mfde  FD <c|u> <y|n> <bytes>        => <de>;<consumed>
 //!   C10 mfdefl FD <flagty> <bytes>          => <de>;<consumed>
 //!   C10 mpde  CD <aff|proj> <c|u> <y|n> <bytes> => <de>;<consumed>
+//!   C10 pchk  CD <aff|proj> <P>            => ok | err:invalid      (Valid::check)
+//!   C10 pbchk CD <aff|proj> <P1;P2;…>      => ok | err:invalid      (Valid::batch_check; `_` = empty batch)
 //!   <de> = `ok <value>[ <flag>]` | `err:<io|invalid|notenough|flags>`; a panic prints `panic` for the whole result.
 #![allow(non_camel_case_types)]
 use crate::util::*;
 use ark_ec::{short_weierstrass as sw, twisted_edwards as te, AffineRepr, CurveConfig, CurveGroup};
-use ark_ff::{BigInteger, Field, Fp, MontBackend, MontConfig, MontFp, PrimeField, Zero};
+use ark_ff::{BigInteger, Field, Fp, Fp2, Fp2Config, MontBackend, MontConfig, MontFp, PrimeField, Zero};
 use ark_serialize::{
     CanonicalDeserialize, CanonicalSerialize, CanonicalSerializeWithFlags, Compress, EmptyFlags, Flags, SerializationError, Validate,
 };
@@ -104,9 +106,11 @@ pub fn fdesc<F: Field>(tower: &str) -> String {
     format!("{} {:x} {}", hex_limbs(F::BasePrimeField::MODULUS.as_ref()), nlimbs::<F>(), tower)
 }
 pub fn h01(b: bool) -> &'static str { if b { "1" } else { "0" } }
-pub fn sw_desc<P: sw::SWCurveConfig>(fd: &str) -> String {
+pub fn sw_desc<P: sw::SWCurveConfig>(fd: &str) -> String { sw_desc_with::<P>(fd, h01(P::cofactor_is_one())) }
+/// `h1`: `0` / `1` (default subgroup test, `cofactor_is_one`) or the parameters of an overriding test
+pub fn sw_desc_with<P: sw::SWCurveConfig>(fd: &str, h1: &str) -> String {
     format!("sw {} {} {} {} {}", fd, fe(&P::COEFF_A), fe(&P::COEFF_B),
-        hex_limbs(<P::ScalarField as PrimeField>::MODULUS.as_ref()), h01(P::cofactor_is_one()))
+        hex_limbs(<P::ScalarField as PrimeField>::MODULUS.as_ref()), h1)
 }
 pub fn te_desc<P: te::TECurveConfig>(fd: &str) -> String {
     format!("te {} {} {} {} {}", fd, fe(&P::COEFF_A), fe(&P::COEFF_D),
@@ -237,6 +241,20 @@ pub fn op_mpde<T: Rep>(out: &mut Out, cd: &str, bytes: &[u8], c: Compress, v: Va
     out.line(&input, &res);
 }
 
+/// `Valid::check` of one point
+pub fn op_pchk<T: Rep>(out: &mut Out, cd: &str, x: &T) {
+    let input = format!("C10 pchk {} {} {}", cd, T::KIND, x.show());
+    let res = guarded(|| match x.check() { Ok(()) => "ok".into(), Err(e) => format!("err:{}", err_str(&e)) });
+    out.line(&input, &res);
+}
+/// `Valid::batch_check` of a list of points
+pub fn op_pbchk<T: Rep>(out: &mut Out, cd: &str, xs: &[T]) {
+    let ps = if xs.is_empty() { "_".to_string() } else { xs.iter().map(|x| x.show()).collect::<Vec<_>>().join(";") };
+    let input = format!("C10 pbchk {} {} {}", cd, T::KIND, ps);
+    let res = guarded(|| match T::batch_check(xs.iter()) { Ok(()) => "ok".into(), Err(e) => format!("err:{}", err_str(&e)) });
+    out.line(&input, &res);
+}
+
 // ------------------------------------------------------------------ toy scalar fields and curves
 macro_rules! tiny_field {
     ($cfg:ident, $ty:ident, $m:literal, $g:literal) => {
@@ -294,6 +312,25 @@ macro_rules! te_curve {
     };
 }
 macro_rules! m { ($s:literal) => { MontFp!($s) }; }
+macro_rules! q { ($a:literal, $b:literal) => { Fp2::new(MontFp!($a), MontFp!($b)) }; }
+tiny_field!(S11, F11, "11", "2");
+tiny_field!(S193, F193, "193", "5");
+/// F_49 = F_7[u]/(u² + 1)
+pub struct Q49;
+impl Fp2Config for Q49 {
+    type Fp = FDT7;
+    const NONRESIDUE: FDT7 = MontFp!("6");
+    const FROBENIUS_COEFF_FP2_C1: &'static [FDT7] = &[MontFp!("1"), MontFp!("6")];
+}
+pub type F49 = Fp2<Q49>;
+/// F_169 = F_13[u]/(u² − 2)
+pub struct Q169;
+impl Fp2Config for Q169 {
+    type Fp = FDT13;
+    const NONRESIDUE: FDT13 = MontFp!("2");
+    const FROBENIUS_COEFF_FP2_C1: &'static [FDT13] = &[MontFp!("1"), MontFp!("12")];
+}
+pub type F169 = Fp2<Q169>;
 use crate::zoo::{FDT127, FDT13, FDT251, FDT257, FDT3, FDT5, FDT7};
 
 // Toy curves (orders, generators, cofactors by brute force: python, re-checked at start-up by `check_*`).
@@ -318,6 +355,13 @@ sw_curve!(SW251A, FDT251, F47, 6, m!("8"), m!("1"), m!("1"), m!("30"), m!("26"))
 sw_curve!(SW251B, FDT251, F29, 8, m!("11"), m!("248"), m!("1"), m!("2"), m!("76"));
 sw_curve!(SW251C, FDT251, F271, 1, m!("1"), m!("1"), m!("4"), m!("0"), m!("2"));
 sw_curve!(SW257A, FDT257, F43, 6, m!("36"), m!("0"), m!("1"), m!("16"), m!("111"));
+// over quadratic extensions (the sign rule compares c1 first):
+// SW49A    F_49   0     1    48   3    16
+// SW49B    F_49   2+3u  4+u  44   11   4
+// SW169A   F_169  0     u    193  193  1
+sw_curve!(SW49A, F49, FDT3, 16, m!("1"), q!("0", "0"), q!("1", "0"), q!("0", "0"), q!("1", "0"));
+sw_curve!(SW49B, F49, F11, 4, m!("3"), q!("2", "3"), q!("4", "1"), q!("2", "6"), q!("1", "4"));
+sw_curve!(SW169A, F169, F193, 1, m!("1"), q!("0", "0"), q!("0", "1"), q!("1", "0"), q!("4", "5"));
 // Complete twisted-Edwards curves (a a square, d a non-square: the unified affine law is the group law)
 // name    field  a   d    order  r   h
 // TE13A   F_13   1   7    20     5   4
@@ -352,6 +396,23 @@ pub fn rand_prime<F: PrimeField>(rng: &mut Rng) -> F {
     for _ in 0..(F::MODULUS.as_ref().len() * 2 + 1) { acc = acc * c + small::<F>(rng.next() >> 32); }
     acc
 }
+/// all elements of a toy field (prime or extension)
+pub fn all_field_elems<F: Field>() -> Vec<F> {
+    let p = F::BasePrimeField::MODULUS.as_ref()[0] as usize;
+    let k = F::extension_degree() as usize;
+    let mut out = Vec::new();
+    for mut n in 0..p.pow(k as u32) {
+        let mut cs = Vec::with_capacity(k);
+        for _ in 0..k { cs.push(small::<F::BasePrimeField>((n % p) as u64)); n /= p; }
+        out.push(F::from_base_prime_field_elems(cs).unwrap());
+    }
+    out
+}
+pub fn rand_field<F: Field>(rng: &mut Rng) -> F {
+    let k = F::extension_degree() as usize;
+    F::from_base_prime_field_elems((0..k).map(|_| rand_prime::<F::BasePrimeField>(rng))).unwrap()
+}
+pub fn small_f<F: Field>(s: u64) -> F { F::from_base_prime_field(small::<F::BasePrimeField>(s)) }
 /// deterministic edge elements of a prime field, then `extra` random ones
 pub fn edge_prime<F: PrimeField>(rng: &mut Rng, extra: usize) -> Vec<F> {
     let bits = F::MODULUS_BIT_SIZE as u64;
@@ -376,7 +437,7 @@ pub fn edge_prime<F: PrimeField>(rng: &mut Rng, extra: usize) -> Vec<F> {
 }
 /// elements of an extension field: coefficient vectors mixing edge values of the prime field
 pub fn edge_ext<F: Field>(rng: &mut Rng, n: usize) -> Vec<F>
-where F::BasePrimeField: PrimeField {
+{
     let k = F::extension_degree() as usize;
     let e = edge_prime::<F::BasePrimeField>(rng, 4);
     let mut v: Vec<F> = Vec::new();
@@ -472,7 +533,7 @@ pub fn ser_fl<F: Field, Fl: NF>(x: &F, fl: Fl) -> Option<Vec<u8>> {
 /// byte strings offered to `deserialize_with_flags::<Fl>` (C09 uniqueness, C10 malformed input): valid encodings, top-byte sweeps,
 /// non-reduced integers, stray bits, random strings; exhaustive for sizes ≤ `exh`
 pub fn field_strings<F: Field, Fl: NF>(rng: &mut Rng, vals: &[F], exh: usize, sweeps: usize, all_trunc: bool) -> Vec<Vec<u8>>
-where F::BasePrimeField: PrimeField {
+{
     let size = F::zero().serialized_size_with_flags::<Fl>();
     if <Fl as ark_serialize::Flags>::BIT_SIZE > 8 { return vec![vec![0u8; size], vec![]]; }
     if size <= exh {
@@ -516,8 +577,8 @@ where F::BasePrimeField: PrimeField {
 
 // ------------------------------------------------------------------ curve point generators
 /// all affine points (without the identity) of a toy SW curve over a toy prime field
-pub fn sw_all_points<P: sw::SWCurveConfig>() -> Vec<sw::Affine<P>> where P::BaseField: PrimeField {
-    let el = all_elems::<P::BaseField>();
+pub fn sw_all_points<P: sw::SWCurveConfig>() -> Vec<sw::Affine<P>> {
+    let el = all_field_elems::<P::BaseField>();
     let mut pts = Vec::new();
     for x in &el { for y in &el {
         let a = sw::Affine::<P>::new_unchecked(*x, *y);
@@ -525,8 +586,8 @@ pub fn sw_all_points<P: sw::SWCurveConfig>() -> Vec<sw::Affine<P>> where P::Base
     } }
     pts
 }
-pub fn te_all_points<P: te::TECurveConfig>() -> Vec<te::Affine<P>> where P::BaseField: PrimeField {
-    let el = all_elems::<P::BaseField>();
+pub fn te_all_points<P: te::TECurveConfig>() -> Vec<te::Affine<P>> {
+    let el = all_field_elems::<P::BaseField>();
     let mut pts = Vec::new();
     for x in &el { for y in &el {
         let a = te::Affine::<P>::new_unchecked(*x, *y);
@@ -535,7 +596,7 @@ pub fn te_all_points<P: te::TECurveConfig>() -> Vec<te::Affine<P>> where P::Base
     pts
 }
 /// start-up check of a toy SW curve's table entry: group order, generator order, cofactor
-pub fn check_sw<P: sw::SWCurveConfig>(name: &str, order: u64) where P::BaseField: PrimeField {
+pub fn check_sw<P: sw::SWCurveConfig>(name: &str, order: u64) {
     let pts = sw_all_points::<P>();
     assert_eq!(pts.len() as u64 + 1, order, "{}: group order", name);
     let r = <P::ScalarField as PrimeField>::MODULUS.as_ref()[0];
@@ -544,7 +605,7 @@ pub fn check_sw<P: sw::SWCurveConfig>(name: &str, order: u64) where P::BaseField
     assert!(g.is_on_curve() && !g.infinity, "{}: generator", name);
     assert!(g.mul_bigint([r]).into_affine().infinity, "{}: r*G = O", name);
 }
-pub fn check_te<P: te::TECurveConfig>(name: &str, order: u64) where P::BaseField: PrimeField {
+pub fn check_te<P: te::TECurveConfig>(name: &str, order: u64) {
     let pts = te_all_points::<P>();
     assert_eq!(pts.len() as u64, order, "{}: group order", name);
     let r = <P::ScalarField as PrimeField>::MODULUS.as_ref()[0];
@@ -566,28 +627,28 @@ pub fn te_rescale<P: te::TECurveConfig>(p: &te::Projective<P>, l: P::BaseField) 
     te::Projective::<P>::new_unchecked(p.x * l, p.y * l, p.t * l, p.z * l)
 }
 /// a random point of the curve (not necessarily in the prime-order subgroup)
-pub fn sw_rand_curve_point<P: sw::SWCurveConfig>(rng: &mut Rng) -> sw::Affine<P> where P::BaseField: PrimeField {
+pub fn sw_rand_curve_point<P: sw::SWCurveConfig>(rng: &mut Rng) -> sw::Affine<P> {
     loop {
-        let x = rand_prime::<P::BaseField>(rng);
+        let x = rand_field::<P::BaseField>(rng);
         if let Some(p) = sw::Affine::<P>::get_point_from_x_unchecked(x, rng.below(2) == 0) { return p; }
     }
 }
-pub fn te_rand_curve_point<P: te::TECurveConfig>(rng: &mut Rng) -> te::Affine<P> where P::BaseField: PrimeField {
+pub fn te_rand_curve_point<P: te::TECurveConfig>(rng: &mut Rng) -> te::Affine<P> {
     loop {
-        let y = rand_prime::<P::BaseField>(rng);
+        let y = rand_field::<P::BaseField>(rng);
         if let Some(p) = te::Affine::<P>::get_point_from_y_unchecked(y, rng.below(2) == 0) { return p; }
     }
 }
 /// an `x` with no point on the curve
-pub fn sw_rand_noncurve_x<P: sw::SWCurveConfig>(rng: &mut Rng) -> P::BaseField where P::BaseField: PrimeField {
+pub fn sw_rand_noncurve_x<P: sw::SWCurveConfig>(rng: &mut Rng) -> P::BaseField {
     loop {
-        let x = rand_prime::<P::BaseField>(rng);
+        let x = rand_field::<P::BaseField>(rng);
         if sw::Affine::<P>::get_ys_from_x_unchecked(x).is_none() { return x; }
     }
 }
-pub fn te_rand_noncurve_y<P: te::TECurveConfig>(rng: &mut Rng) -> P::BaseField where P::BaseField: PrimeField {
+pub fn te_rand_noncurve_y<P: te::TECurveConfig>(rng: &mut Rng) -> P::BaseField {
     loop {
-        let y = rand_prime::<P::BaseField>(rng);
+        let y = rand_field::<P::BaseField>(rng);
         if te::Affine::<P>::get_xs_from_y_unchecked(y).is_none() { return y; }
     }
 }
@@ -599,8 +660,7 @@ pub fn ser_vec<T: CanonicalSerialize>(x: &T, c: Compress) -> Vec<u8> {
 
 /// structured sample of SW curve points for shipped curves: subgroup points, curve points outside the
 /// subgroup (cofactor > 1), points with a small-order component
-pub fn sw_sample<P: sw::SWCurveConfig>(rng: &mut Rng, n: usize) -> (Vec<sw::Affine<P>>, Vec<sw::Affine<P>>)
-where P::BaseField: PrimeField {
+pub fn sw_sample<P: sw::SWCurveConfig>(rng: &mut Rng, n: usize) -> (Vec<sw::Affine<P>>, Vec<sw::Affine<P>>) {
     let g = P::GENERATOR;
     let mut sub: Vec<sw::Affine<P>> = vec![sw::Affine::<P>::identity(), g, -g, (g + g).into_affine(), (g + g + g).into_affine()];
     for _ in 0..n {
@@ -620,8 +680,7 @@ where P::BaseField: PrimeField {
     }
     (sub, other)
 }
-pub fn te_sample<P: te::TECurveConfig>(rng: &mut Rng, n: usize) -> (Vec<te::Affine<P>>, Vec<te::Affine<P>>)
-where P::BaseField: PrimeField {
+pub fn te_sample<P: te::TECurveConfig>(rng: &mut Rng, n: usize) -> (Vec<te::Affine<P>>, Vec<te::Affine<P>>) {
     let g = P::GENERATOR;
     let mut sub: Vec<te::Affine<P>> = vec![te::Affine::<P>::zero(), g, -g, (g + g).into_affine(), (g + g + g).into_affine()];
     for _ in 0..n {
@@ -671,4 +730,18 @@ pub fn point_strings<Fq: PrimeField>(rng: &mut Rng, valid: &[Vec<u8>], size: usi
     if let Some(b) = valid.get(0) { bulk.extend(truncations(b).into_iter().step_by(5)); }
     for _ in 0..nrand { bulk.push(rand_bytes(rng, size)); }
     (dedup(core), dedup(bulk))
+}
+
+// ------------------------------------------------------------------ BLS12-381 G2 (test-curves): line tokens
+/// tower token of `bls12_381::Fq2 = Fq[u]/(u² + 1)`: `2:<β>` with β = −1 mod q
+pub fn g2_tower() -> String {
+    use ark_test_curves::bls12_381::Fq;
+    format!("2:{}", fe(&(-Fq::from(1u64))))
+}
+/// parameters of the overriding subgroup test `[X]P = ψ(P)`: `g2:<X>:<X_IS_NEGATIVE>:<K0.c1>:<K1.c0>:<K1.c1>`
+pub fn g2_h1() -> String {
+    use ark_ec::bls12::Bls12Config;
+    use ark_test_curves::bls12_381::{g2, Config};
+    format!("g2:{:x}:{}:{}:{}:{}", Config::X[0], h01(Config::X_IS_NEGATIVE),
+        fe(&g2::P_POWER_ENDOMORPHISM_COEFF_0.c1), fe(&g2::P_POWER_ENDOMORPHISM_COEFF_1.c0), fe(&g2::P_POWER_ENDOMORPHISM_COEFF_1.c1))
 }
